@@ -492,8 +492,13 @@ def step(pool, scal_objs, tr, acc, hist, ctx):
         kind = type(exc).__name__
         if not quiet:
             acc.out(("exc", opn, kind))
-            if must or not isinstance(exc, REJECTIONS):
-                where = tangelo_frame(exc) or (site + "(inherited)")
+            where = tangelo_frame(exc) or (site + "(inherited)")
+            if opn in INPLACE and x is y and where.startswith("openfermion:"):
+                # `x += x` / `x -= x` with the SAME object on both sides fails inside openfermion's SymbolicOperator
+                # (dictionary changed size during iteration). Not Tangelo code, and not "binary arithmetic on two
+                # operands" in the sense of the property: counted, not reported (see DESIGN.md section 7).
+                acc.count("tolerated_openfermion_inplace_self_alias")
+            elif must or not isinstance(exc, REJECTIONS):
                 report(acc, ctx, hist, f"{where}/raises-{kind}", pair, lambda: {
                     "operation": pair, "exception": repr(exc)[:300], "documented_as_supported": must})
             else:
